@@ -59,12 +59,16 @@ func c01Gen(t *rapid.T) c01Plan { return c01GenMode(t, false) }
 
 func c01GenMode(t *rapid.T, withDurations bool) c01Plan {
 	p := c01Plan{}
-	p.Kind = rapid.SampledFrom([]string{"new", "redeploy", "redeploy", "rollout"}).Draw(t, "kind")
+	kinds := []string{"new", "redeploy", "redeploy", "rollout"}
+	if withDurations { // C17: also a deploy that is refused late, by a host conflict
+		kinds = append(kinds, "conflict")
+	}
+	p.Kind = rapid.SampledFrom(kinds).Draw(t, "kind")
 	p.IntervalMs = rapid.SampledFrom([]int{100, 250, 1000}).Draw(t, "interval")
 	p.ProbeTimeoutMs = rapid.SampledFrom([]int{50, 100, 300, 1000}).Draw(t, "probe-timeout")
 	p.DeployMs = rapid.SampledFrom([]int{200, 500, 1000, 3000}).Draw(t, "deploy-timeout")
 	p.DrainMs = rapid.SampledFrom([]int{100, 400, 2000}).Draw(t, "drain-timeout")
-	if p.Kind != "new" {
+	if p.Kind != "new" && p.Kind != "conflict" {
 		p.OldTargets = rapid.IntRange(1, 2).Draw(t, "old-targets")
 		if p.Kind == "rollout" {
 			p.OldRollout = rapid.Bool().Draw(t, "old-rollout")
@@ -134,7 +138,13 @@ func c01RunMode(t *testing.T, p c01Plan, mode string) (res vfResult) {
 			w.target(n)
 			oldNames = append(oldNames, n)
 		}
-		if p.Kind != "new" {
+		if p.Kind == "conflict" {
+			w.target("other0:80")
+			if err := r.DeployService("other", []string{"other0:80"}, opts, to, 5*time.Second, time.Second); err != nil {
+				res.failf("setup-failed", "setup deploy of the host's owner failed: %v", err)
+				return
+			}
+		} else if p.Kind != "new" {
 			if err := r.DeployService("svc", oldNames, opts, to, 5*time.Second, time.Second); err != nil {
 				res.failf("setup-failed", "setup deploy failed: %v", err)
 				return
@@ -250,6 +260,52 @@ func c01RunMode(t *testing.T, p c01Plan, mode string) (res vfResult) {
 			maxStrict = max(maxStrict, tokStrict[i])
 		}
 		failed := cmd.res.Err != nil
+		if p.Kind == "conflict" {
+			// healthy in time => refused by the conflict, at the instant the last target became healthy; never healthy => timeout
+			desc := fmt.Sprintf("kind=conflict start=%v deadline=%v returned=%v err=%v T_ok(loose)=%v T_ok(strict)=%v", start, deadline, end, cmd.res.Err, tokLoose, tokStrict)
+			cls := vfErrClass(cmd.res.Err)
+			switch {
+			case allStrictBefore && cls != "host-in-use":
+				res.failf("conflict-not-refused", "the host is owned by another service and every new target became healthy: want host-in-use, got %q: %s", cls, desc)
+				return
+			case someLooseMissing && cls != "unhealthy":
+				res.failf("wrong-error", "some target never became healthy: want the health error, got %q: %s", cls, desc)
+				return
+			case cls == "ok":
+				res.failf("conflict-not-refused", "deploy onto a host owned by another service succeeded: %s", desc)
+				return
+			}
+			if cls == "host-in-use" && (end < min(maxStrict, maxLoose) || end > max(maxStrict, maxLoose)) {
+				res.failf("deploy-return-time", "refused deploy returned at %v, want the instant the last target became healthy (%v..%v): %s", end, min(maxStrict, maxLoose), max(maxStrict, maxLoose), desc)
+				return
+			}
+			if cls == "unhealthy" && end != deadline {
+				res.failf("failed-deploy-return-time", "failed deploy must return exactly at %v, returned at %v: %s", deadline, end, desc)
+				return
+			}
+			for i, tg := range newTargets {
+				if n := len(tg.reqLog()); n > 0 {
+					res.failf("traffic-after-failed-deploy", "the deploy was refused, yet new target %s received %d client request(s): %s", newNames[i], n, desc)
+					return
+				}
+				for _, pr := range tg.probeLog() {
+					if pr.At > end {
+						res.failf("probe-after-command", "target %s was probed at %v, after the deploy that named it was refused at %v: %s", newNames[i], pr.At, end, desc)
+						return
+					}
+				}
+			}
+			for _, pd := range append(append([]*vfPending{}, pend...), late...) {
+				if pd.resp.Status != 200 || pd.resp.Target != "other0:80" {
+					res.failf("failed-deploy-disturbed-service", "the host's owner must keep answering, got %v: %s", pd.resp, desc)
+					return
+				}
+			}
+			res.NonTrivial = true
+			res.label("kind:conflict")
+			res.label("outcome:" + cls)
+			return
+		}
 		desc := fmt.Sprintf("kind=%s start=%v deadline=%v returned=%v err=%v T_ok(loose)=%v T_ok(strict)=%v", p.Kind, start, deadline, end, cmd.res.Err, tokLoose, tokStrict)
 		if failed && vfErrClass(cmd.res.Err) != "unhealthy" {
 			res.failf("wrong-error", "unexpected error class: %s", desc)
